@@ -71,8 +71,10 @@ def norm(node: ast.AST) -> str:
 
 
 class Program:
-    def __init__(self, root: pathlib.Path | None = None):
+    def __init__(self, root: pathlib.Path | None = None, overlay: dict | None = None):
+        """overlay: {relative path: source text} replaces file contents in memory (self-test variants)."""
         self.root = pathlib.Path(root) if root else repo_root()
+        self.overlay = overlay or {}
         self.pkg = self.root / "nix_manipulator"
         if not self.pkg.is_dir():
             raise AnalysisError(f"package directory missing: {self.pkg}")
@@ -87,7 +89,9 @@ class Program:
         h = hashlib.sha256()
         for p in sorted(self.pkg.rglob("*.py")):
             rel = p.relative_to(self.root).as_posix()
-            src = p.read_text(encoding="utf-8")
+            src = self.overlay.get(rel)
+            if src is None:
+                src = p.read_text(encoding="utf-8")
             h.update(rel.encode() + b"\0" + src.encode() + b"\0")
             try:
                 tree = ast.parse(src, rel)
